@@ -502,6 +502,7 @@ pub fn build_world(seed: u64, idx: u64, out: &mut RunOut) -> World {
         Family::AliasDiamond | Family::SchemaChoiceNest => rw.range(1, 10),
         _ if nesting => *rw.pick(&[4usize, 8, 16, 32, 48, 63, 64]),
         Family::ManyRules | Family::ManyChoices | Family::WideMap | Family::OptionalRun => *rw.pick(&[10usize, 100, 400, 1000]),
+        Family::JoinRepeat | Family::PatternRepeat => *rw.pick(&[10usize, 30, 100, 400]),
         _ => *rw.pick(&[10usize, 100, 1000, 5000]),
       };
       let c = family_case(f, n);
@@ -664,7 +665,7 @@ fn growth_limit(f: Family) -> f64 {
 }
 
 fn is_nesting(f: Family) -> bool {
-  !matches!(f, Family::ManyRules | Family::ManyChoices | Family::LongArray | Family::WideMap | Family::OptionalRun)
+  !matches!(f, Family::ManyRules | Family::ManyChoices | Family::LongArray | Family::WideMap | Family::OptionalRun | Family::JoinRepeat | Family::PatternRepeat)
 }
 
 impl Check for C05G {
